@@ -105,13 +105,13 @@ def point_in_bounds(point, bounds, tolerance=1e-9):
     """
     x, y = point
     [[x_min, y_min], [x_max, y_max]] = bounds
-    if x < x_min - tolerance:
+    if x < x_min and x < x_min - tolerance:
         return False
-    if y < y_min - tolerance:
+    if y < y_min and y < y_min - tolerance:
         return False
-    if x > x_max + tolerance:
+    if x > x_max and x > x_max + tolerance:
         return False
-    if y > y_max + tolerance:
+    if y > y_max and y > y_max + tolerance:
         return False
     return True
 
